@@ -166,7 +166,9 @@ def declared_only(F, res):
     gets = [(bi, t) for bi, t in mir.calls(f) if LOOKUP_RE.search(t.get("callee") or "")]
     fj = [(bi, t) for bi, t in mir.calls(f) if call_matches(t, "tx3_resolver::interop::from_json")]
     key = f["path"] + "|insert only for declared keys"
-    if not inserts or not fj:
+    if not inserts:
+        return declared_only_collected(F, res, f)
+    if not fj:
         raise BrokenCheck("parse_resolve_request: no ArgMap insert / from_json call found (anchor changed)")
     problems = []
     from ..e8_state import option_switch
@@ -211,6 +213,86 @@ def declared_only(F, res):
         res.add([finding("S-DECLARED", key3, w, "the declared-parameter map is not find_params(&tir)")])
 
 
+ARGMAP = "std::collections::BTreeMap<std::string::String, tx3_tir::reduce::ArgValue>"
+ITER_ADAPTORS = tuple("std::iter::Iterator::" + n for n in (
+    "map", "filter_map", "map_while", "flat_map", "flatten", "filter", "take", "skip", "take_while", "skip_while", "step_by", "inspect",
+    "peekable", "rev", "cloned", "copied", "by_ref", "fuse", "scan", "chain")) + (
+    "std::iter::IntoIterator::into_iter", "std::collections::BTreeMap::<K, V, A>::iter", "std::collections::BTreeMap::<K, V, A>::into_iter",
+    "std::collections::HashMap::<K, V, S, A>::iter", "std::ops::Deref::deref", "std::ops::Try::branch")
+
+
+def declared_only_collected(F, res, f):
+    """S-DECLARED when the argument map is not filled by `insert` but collected from an iterator chain.  Two shapes:
+    the chain walks the declared table (`find_params(..)`): its keys are declared by construction and the type handed to
+    from_json is the walked entry's; or the chain walks the supplied entries and a `filter_map` / `flat_map` stage looks each key
+    up in the declared table.  Anything else is reported as not decided."""
+    w = where(f)
+    key = f["path"] + "|insert only for declared keys"
+    key2 = f["path"] + "|coerced with the declared type"
+    key3 = f["path"] + "|declared = find_params(tir)"
+    bodies = with_closures(F, f)
+    fj = [(b, t) for b in bodies for bi, t in mir.calls(b) if call_matches(t, "tx3_resolver::interop::from_json")]
+    if not fj:
+        raise BrokenCheck("parse_resolve_request: no from_json call found (anchor changed)")
+    du = mir.DefUse(f)
+    builds = []
+    for bi, t in mir.calls(f):
+        last = (t.get("callee") or "").split("::")[-1]
+        if last in ("collect", "from_iter") and ARGMAP in f["locals"][t["dest"]["l"]] and t["args"]:
+            builds.append((t, t["args"][0]))
+        elif last == "extend" and len(t["args"]) > 1 and mir.op_place(t["args"][0]) is not None and ARGMAP in f["locals"][mir.op_place(t["args"][0])["l"]]:
+            builds.append((t, t["args"][1]))
+    if not builds:
+        raise BrokenCheck("parse_resolve_request: the argument map is neither filled by insert nor collected (anchor changed)")
+    for t, src in builds:
+        org = mir.provenance(f, du, src, transparent_extra=ITER_ADAPTORS)
+        from_declared = bool(org) and all(o.kind == "call" and o.callee == "tx3_tir::reduce::find_params" for o in org)
+        # the stages of the chain and their closures
+        stage_closures = []
+        st, seen = [src], set()
+        while st:
+            x = st.pop()
+            pl = mir.op_place(x)
+            if pl is None or pl["l"] in seen:
+                continue
+            seen.add(pl["l"])
+            for d in du.defs.get(pl["l"], []):
+                if d[0] == "call" and mir.is_transparent(d[3], ITER_ADAPTORS):
+                    stage_closures += [(d[3], F.fns[c]) for c in d[3].get("fnrefs") or () if c in F.fns]
+                    st.append(d[3]["args"][0])
+                elif d[0] == "stmt" and d[3]["rv"]["k"] in ("use", "cast"):
+                    st.append(d[3]["rv"]["op"])
+        if from_declared:
+            res.add([ok("S-DECLARED", key, where(f, t["line"]), "the argument map is collected from a walk over find_params(&tir): its keys are the declared ones")])
+            res.add([ok("S-DECLARED", key3, w, "the table walked is find_params(&tir)")])
+            good2, why = True, []
+            for b, ft in fj:
+                o = mir.provenance(b, mir.DefUse(b), ft["args"][1])
+                if b["def_kind"] == "Closure" and o and all(x.kind == "arg" and x.local == 2 for x in o) and any(b["path"] == c["path"] for _, c in stage_closures):
+                    why.append("type argument is the walked entry's")
+                else:
+                    good2 = False
+                    why.append("type argument: %r" % o)
+            if good2:
+                res.add([ok("S-DECLARED", key2, w, "; ".join(sorted(set(why))))])
+            else:
+                res.add([finding("S-DECLARED", key2, w, "from_json is not called with the type the template declares: " + "; ".join(why))])
+            continue
+        looked_up = False
+        for at, c in stage_closures:
+            if (at.get("callee") or "").split("::")[-1] in ("filter_map", "flat_map"):
+                for cb in with_closures(F, c):
+                    for _, t2 in mir.calls(cb):
+                        if LOOKUP_RE.search(t2.get("callee") or "") and "tx3_tir::model::core::Type" in cb["locals"][t2["dest"]["l"]]:
+                            looked_up = True
+        if looked_up:
+            res.add([ok("S-DECLARED", key, where(f, t["line"]), "the argument map is collected from the supplied entries through a filter_map stage that looks the key up in the declared table")])
+            res.add([assumption("S-DECLARED", key2, w, "collected form over the supplied entries: the type handed to from_json is not traced (not decided)")])
+            res.add([assumption("S-DECLARED", key3, w, "collected form over the supplied entries: the table looked up is not traced back to find_params (not decided)")])
+        else:
+            res.add([assumption("S-DECLARED", key, where(f, t["line"]), "the argument map is collected from a chain whose shape is not recognised (neither a walk over the declared table nor a looked-up filter_map over the supplied entries): not decided")])
+
+
 def type_arms(F, res):
     f = F.fn("tx3_resolver::interop::from_json")
     adt = F.adt(TYPE)
@@ -231,8 +313,12 @@ def type_arms(F, res):
             res.add([ok("S-TYPES", key, w, "dedicated arm")])
 
 
-DROPPING = ("filter", "filter_map", "take", "skip", "take_while", "skip_while", "step_by", "take_if", "nth", "last", "find", "find_map",
+DROPPING = ("filter", "filter_map", "take", "skip", "take_while", "skip_while", "map_while", "scan", "step_by", "take_if", "nth", "last", "find", "find_map",
             "retain", "truncate", "clear", "drain", "split_off", "pop_first", "pop_last", "remove")
+# on a walk over the *declared* table, dropping an entry for which nothing was supplied is the point (filter_map / a lookup that
+# consumes); cutting the walk short is not
+TRUNCATING = ("take", "skip", "take_while", "skip_while", "map_while", "scan", "step_by", "nth", "last", "find", "find_map", "truncate", "clear",
+              "drain", "split_off", "pop_first", "pop_last")
 
 
 def all_supplied(F, res):
@@ -258,6 +344,13 @@ def all_supplied(F, res):
                     for pr in o.proj:
                         if pr in (".args", ".env"):
                             flds.add(pr[1:])
+            if not flds and last in TRUNCATING and any(
+                    o.kind == "call" and o.callee == "tx3_tir::reduce::find_params"
+                    for o in mir.provenance(b, du, t["args"][0], transparent_extra=ITER_ADAPTORS)):
+                n += 1
+                key = "tx3_resolver::trp::parse_resolve_request|the walk over the declared parameters passes through %s" % last
+                res.add([finding("S-ALLSUPPLIED", key, where(b, t["line"]), "the walk over the template's declared parameters goes through `%s`: it can end before every declared parameter was matched with the supplied entries, so a supplied argument is dropped depending on which other arguments the request contains" % last)])
+                continue
             if not flds:
                 continue
             n += 1
